@@ -1,15 +1,28 @@
 ID = "C19"
 LEVEL = "proof"
 TITLE = "Shutdown is graceful: open sessions finish, nothing new starts, waiting ends"
-LEVEL_TEXT = ("Coq theorems over ALL schedules of the listener/WaitGroup/session model (no accept after close, Drain returns exactly when "
-              "no accepted session is alive — SMTP and POP3 as coded now —, sessions are untouched by cancellation, late hub operations "
-              "neither block nor panic, the retention scanner stops within a bounded number of its own steps) + correspondence of the "
-              "model with real smtp.Server / pop3.Server on ephemeral ports, a real hub, store and retention scanner.")
-LEVEL_NOTE = ("The theorems are about coq/Model/Lifecycle.v and Model/Hub.v. Accept+wg.Add of the accept loop is ONE step of the model "
-              "(Model/LifecycleAccept.v has them as two steps, with the accept loop itself counted as coded after repair 0022: drain_exact_accept_loop; the harness forces the window by wrapping the loop's listener). "
+LEVEL_TEXT = ("Coq theorems over ALL schedules of the listener/WaitGroup/session models + correspondence with real smtp.Server / pop3.Server on "
+              "ephemeral ports, a real hub, store and retention scanner. Headline, for the code as it is now (accept loop counted, repair 0022; "
+              "Accept() and wg.Add two steps): drain_exact_accept_loop — Drain returns exactly when the accept loop has exited and no accepted "
+              "session is alive; then nothing is held uncounted and nothing can be accepted any more (drained_is_final). drain_exact is the "
+              "SESSION-COUNT part of that (coarse model without the loop's own count; it is the code's Drain only in states where the loop has "
+              "exited: coarse_drain_applies_after_loop_exit). No accept from the moment Start has CLOSED the listener (no_accept_after_close; "
+              "between cancel() and that close Accept stays possible, in the model as in the code). Drain also waits for a QUIT's deletions; "
+              "the assembled server's shutdown sequence terminates for every subset of listeners failing to bind; readyFunc iff all bound. "
+              "STRUCTURAL (true by the shape of the model, backed by a reading of the source and by the `life` stream, not independent "
+              "evidence): sessions are untouched by cancellation — open_session_unaffected / inflight_completes / drain_waits_for_quit_deletes "
+              "hold because the model's session step does not use the shutdown flags (it is GIVEN them and session_step_ignores_shutdown proves "
+              "the independence; that the Go handlers mention neither ctx nor the listener is read off handler.go and sampled by `life`); "
+              "likewise hub_stop_harmless unfolds the `stopped` branch of the hub's enqueue and retention_stops two steps of the scanner.")
+LEVEL_NOTE = ("Models: coq/Model/Lifecycle.v (sessions, coarse accept), Model/LifecycleAccept.v (two-step accept, counted loop — the faithful "
+              "one for Drain; the harness forces the window by wrapping the loop's listener), Model/LifecycleAsm.v (Services.Start shape and "
+              "main()'s waits pinned from the source), Model/Hub.v. "
               "The session's protocol dialogue is abstracted to positions (greeted … DATA in flight / DELE marked / UPDATE); the full dialogues are "
-              "C01/C03/C13's. Not modelled: the kernel's listen backlog, timedExit's 15 s. The TLS handshake itself is not modelled, only its "
-              "effect on the session count (a client failing the handshake of a ForceTLS POP3 server = accepted, started, ended). The tie between model and code is sampled.")
+              "C01/C03/C13's; an SMTP Quit in DATA is DEFINED to store the in-flight message first, a POP3 QUIT in TRANSACTION to pass through UPDATE. "
+              "Not modelled: the kernel's listen backlog; timedExit's 15 s, which in the real binary bounds how long an open session 'can complete "
+              "its dialogue' after shutdown was requested (main() forces the exit then). The TLS handshake itself is not modelled, only its "
+              "effect on the session count (a client failing the handshake of a ForceTLS POP3 server = accepted, started, ended). "
+              "The tie between model and code is sampled.")
 TECHNIQUE = "machine-checked proof in Coq + model/code correspondence check"
 DESIGN_REF = "DESIGN.md §4 C19"
 RULE = ("life: one line = a schedule run by one goroutine against real servers started on 127.0.0.1:0 under one context: up to 3 sessions "
@@ -24,7 +37,9 @@ TRUSTED = ["sync.WaitGroup, net.Listener.Close/Accept and context cancellation b
            "timing: 'blocked' = Drain has not returned 250 ms after the call while the driver's own books show an open session; everything "
            "expected to happen gets 4 s"]
 ASSUMPTIONS = ["Drain is called after cancel (as cmd/inbucket/main.go does)"]
-NOT_PROVED = []
+NOT_PROVED = ["the message hub stops UNCONDITIONALLY: hub_stop_not_delayed carries the C15 exception — while an open listener with a full queue "
+              "holds the hub goroutine (K-C15-slow-listener) it does not observe the cancellation; harmless for 'without blocking shutdown' "
+              "(main() waits for neither the hub nor the web server), but 'the hub stops' is conditional on that"]
 EXEC_TIMEOUT = {"quick": 600, "thorough": 7200}
 
 
